@@ -1216,7 +1216,15 @@ impl Domain for D {
         writeln!(w, "hs 6 {} {} {} {}", to_hex(name_pre), to_hex(b"\0\00\01\01\0"), to_hex(&all[1..]), 2).unwrap();
         writeln!(w, "hs 6 {} {} {} {}", to_hex(b"7\0v\0n\0m\0g\00\01\01\01\01\0a\0"), to_hex(b"\00\01\01\0"), to_hex(&all[1..]), 2).unwrap();
         let utf_alpha: Vec<u8> = vec![0x41, 0x7f, 0x80, 0x8f, 0x90, 0x9f, 0xa0, 0xbf, 0xc0, 0xc1, 0xc2, 0xdf, 0xe0, 0xe1, 0xec, 0xed, 0xee, 0xef, 0xf0, 0xf1, 0xf3, 0xf4, 0xf5, 0xff];
-        writeln!(w, "hs 6 {} {} {} {}", to_hex(name_pre), to_hex(b"\0\00\01\01\0"), to_hex(&utf_alpha), if thorough { 5 } else { 3 }).unwrap();
+        writeln!(w, "hs 6 {} {} {} {}", to_hex(name_pre), to_hex(b"\0\00\01\01\0"), to_hex(&utf_alpha), if thorough { 4 } else { 3 }).unwrap();
+        if thorough {
+            // length 5, one request per first byte (keeps every request well below the watchdog)
+            for &b0 in &utf_alpha {
+                let mut pre = name_pre.to_vec();
+                pre.push(b0);
+                writeln!(w, "hs 6 {} {} {} {}", to_hex(&pre), to_hex(b"\0\00\01\01\0"), to_hex(&utf_alpha), 4).unwrap();
+            }
+        }
         // capacity: 13/14/15 ASCII bytes, then every string over a multi-byte alphabet
         for fill in [9usize, 13, 14, 15] {
             let mut pre = name_pre.to_vec();
